@@ -653,12 +653,12 @@ public:
 					{
 						rapidjson::PrettyWriter<StringBuffer, TEncoding, rapidjson::UTF8<>> writer(buffer);
 						writer.SetIndent(options.formatOptions.paddingChar, options.formatOptions.paddingCharNum);
-						mRootJson.Accept(writer);
+						CheckWriterResult(mRootJson.Accept(writer));
 					}
 					else
 					{
 						rapidjson::Writer<StringBuffer, TEncoding, rapidjson::UTF8<>> writer(buffer);
-						mRootJson.Accept(writer);
+						CheckWriterResult(mRootJson.Accept(writer));
 					}
 					*arg = buffer.GetString();
 				}
@@ -671,12 +671,12 @@ public:
 					{
 						rapidjson::PrettyWriter<AutoOutputStream, TEncoding, rapidjson::AutoUTF<uint32_t>> writer(eos);
 						writer.SetIndent(options.formatOptions.paddingChar, options.formatOptions.paddingCharNum);
-						mRootJson.Accept(writer);
+						CheckWriterResult(mRootJson.Accept(writer));
 					}
 					else
 					{
 						rapidjson::Writer<AutoOutputStream, TEncoding, rapidjson::AutoUTF<uint32_t>> writer(eos);
-						mRootJson.Accept(writer);
+						CheckWriterResult(mRootJson.Accept(writer));
 					}
 				}
 			}, mOutput);
@@ -685,6 +685,14 @@ public:
 	}
 
 private:
+	static void CheckWriterResult(bool result)
+	{
+		if (!result) {
+			throw SerializationException(SerializationErrorCode::OutOfRange,
+				"The value cannot be represented in JSON (NaN/Infinity or invalid UTF sequence)");
+		}
+	}
+
 	static rapidjson::UTFType ToRapidUtfType(const Convert::Utf::UtfType utfType)
 	{
 		switch (utfType)
